@@ -210,9 +210,14 @@ func runChain(sh chainShape, table map[byte]refmodel.Behaviour) (obs chainObs, b
 		return
 	}
 	regPanic = try(func() {
-		// global middleware: added one by one (spare capacity in the slice) when there are several
-		for i := 0; i < g; i++ {
-			r.Use(hs[i])
+		// global middleware: added one by one (spare capacity in the slice) when there are several - in debug-mode
+		// chains with one call for all of them
+		if strings.Contains(sh.Hooks, "D") && g > 1 {
+			r.Use(hs[:g]...)
+		} else {
+			for i := 0; i < g; i++ {
+				r.Use(hs[i])
+			}
 		}
 		reg := func() {
 			rm := hs[g+p : g+p+rt]
